@@ -12,7 +12,7 @@ use std::collections::HashSet;
 use std::sync::atomic::{AtomicU64, Ordering};
 use std::sync::Mutex;
 
-pub const R0: (&str, &str) = ("r0", "ab cd");
+pub const R0: (&str, &str) = ("r0", "a\u{e9} \u{1d11e}d");
 pub const R1: (&str, &str) = ("r1", "\u{e9}\u{1d11e}x\u{e9}");
 
 #[derive(Clone, Debug)]
